@@ -174,9 +174,12 @@ def run (s : State) : List Step → Option State
 
 /-! ## `GetTopic` pre-creation of channels -/
 
-/-- channels created on a brand-new topic before `t.Start()`: every channel name any queried lookupd
-returned (`GetLookupdTopicChannels` = sorted union), except `#ephemeral` ones -/
-def precreate (answers : List (List String)) : List String :=
-  (answers.flatten.eraseDups).filter (fun c => !c.endsWith "#ephemeral")
+/-- channels created on a brand-new topic before `t.Start()`. `answers` has one entry per lookupd that nsqd
+queries over HTTP (`lookupdHTTPAddrs()`): `some l` = that lookupd answered `/channels?topic=` with `l`, `none` = the
+query failed (down, refused, timeout, garbage). `GetLookupdTopicChannels` returns the union of the lists that did
+arrive *together with* an error when only some queries failed; `GetTopic` logs the error and still uses the list.
+`#ephemeral` names are skipped. -/
+def precreate (answers : List (Option (List String))) : List String :=
+  ((answers.filterMap id).flatten.eraseDups).filter (fun c => !c.endsWith "#ephemeral")
 
 end Nsq.Model.LookupSync
